@@ -39,7 +39,11 @@ Tcp == {[transport |-> "tcp", host |-> h, port |-> p] @@ f @@ n @@ b @@ g :
            n \in OptF("noncefile", IF FULL THEN Vals ELSE Few),
            b \in OptF("bind", {<<97>>}),
            g \in OptF("guid", IF FULL THEN {G1} ELSE {})}
-Addrs == Unix \cup Exec \cup Tcp
+(* vsock is only compiled into the harness in the thorough tier (a second build of zbus) *)
+Vsock == IF FULL THEN {[transport |-> "vsock", cid |-> c, port |-> p] @@ g :
+                         c \in {0, 3, 999999999}, p \in {0, 1234, 999999999}, g \in OptF("guid", {G1})}
+         ELSE {}
+Addrs == Unix \cup Exec \cup Tcp \cup Vsock
 
 VARIABLE a
 Init == a \in Addrs
